@@ -241,6 +241,11 @@ impl Parameter {
          */
     }
 
+    /// Returns true if the argument consists of exactly one group; i.e., it starts
+    /// with an opening brace and the matching closing brace is the last token.
+    ///
+    /// An argument like `{a}{b}` starts and ends with braces too but must be
+    /// left untouched (TeX.2021.393).
     fn should_trim_outer_braces_if_present(list: &[Token]) -> bool {
         if list.len() <= 1 {
             return false;
@@ -251,13 +256,23 @@ impl Parameter {
                 return false;
             }
         }
-        match list[list.len() - 1].value() {
-            token::Value::EndGroup(_) => (),
-            _ => {
-                return false;
+        let mut scope_depth = 0;
+        for (i, token) in list.iter().enumerate() {
+            match token.value() {
+                token::Value::BeginGroup(_) => {
+                    scope_depth += 1;
+                }
+                token::Value::EndGroup(_) => {
+                    scope_depth -= 1;
+                    if scope_depth == 0 {
+                        // This is the brace that closes the first group.
+                        return i == list.len() - 1;
+                    }
+                }
+                _ => (),
             }
         }
-        true
+        false
     }
 
     fn parse_undelimited_argument<S: TexlangState>(
